@@ -5,8 +5,10 @@ import (
 	"compress/gzip"
 	"fmt"
 	"io"
+	gonet "net"
 	"net/http"
 	"net/http/httptest"
+	"net/url"
 	"os"
 	"path/filepath"
 	"strings"
@@ -557,6 +559,84 @@ func init() {
 						r.Violate("C12:bytes:after-transient-break", "byte-for-byte", fmt.Sprintf("gzip=%v break at %d: answered 200 with %d bytes, the payload has %d", gzipOn, cut, w.buf.Len(), len(pa)), idx,
 							&c12Replay{Property: "C12", Clause: "byte-for-byte", Case: cs})
 					}
+				}
+			}
+		}
+		// the server the sidecar really starts (Proxy.Run), a job whose scrape_timeout is longer than the global
+		// one, and a target that takes longer than the GLOBAL timeout but answers within the JOB's: before the
+		// first byte, or with a pause in the middle of a large body. The proxy relays the complete body.
+		if c.Part == 0 {
+			dir2 := dir + "-run"
+			defer os.RemoveAll(dir2)
+			var delayFirst, delayMid time.Duration
+			var body []byte
+			net2 := &rig.Targets{}
+			net2.Serve = func(req *http.Request) rig.Answer {
+				time.Sleep(delayFirst)
+				return rig.Answer{ContentType: "text/plain; version=0.0.4; charset=utf-8", BodyReader: func() io.ReadCloser {
+					return &hookReader{chunkReader: chunkReader{data: body, sched: []int{len(body) / 2}}, after: len(body) / 2, hook: func() { time.Sleep(delayMid) }}
+				}}
+			}
+			sc2, err := rig.NewSidecar(dir2, net2, false)
+			if err != nil {
+				chk.Fatalf("%v", err)
+			}
+			if err := sc2.PushConfig("global:\n  scrape_interval: 10s\n  scrape_timeout: 300ms\nscrape_configs:\n- job_name: j1\n  scrape_timeout: 8s\n  static_configs:\n  - targets: [\"x:1\"]\n"); err != nil {
+				chk.Fatalf("%v", err)
+			}
+			if err := sc2.Update(map[string][]*target.Target{"j1": {c14Target(1, [2]int64{1, 1})}}); err != nil {
+				chk.Fatalf("%v", err)
+			}
+			l, err := gonet.Listen("tcp", "127.0.0.1:0")
+			if err != nil {
+				chk.Fatalf("listen: %v", err)
+			}
+			addr := l.Addr().String()
+			l.Close()
+			go func() { _ = sc2.Px.Run(addr) }()
+			for i := 0; i < 200; i++ { // readiness only
+				if cn, err := gonet.Dial("tcp", addr); err == nil {
+					cn.Close()
+					break
+				}
+				time.Sleep(10 * time.Millisecond)
+			}
+			pu, _ := url.Parse("http://" + addr)
+			cli := &http.Client{Transport: &http.Transport{Proxy: http.ProxyURL(pu), DisableKeepAlives: true}, Timeout: 20 * time.Second}
+			for _, cs := range []struct {
+				name       string
+				first, mid time.Duration
+				data       []byte
+				assigned   bool
+			}{
+				{"fast, small", 0, 0, payloads["mix200"], true},
+				{"slow first byte, small", 900 * time.Millisecond, 0, payloads["mix200"], true},
+				{"slow first byte, small, unassigned", 900 * time.Millisecond, 0, payloads["mix200"], false},
+				{"pause mid-body, 70KiB", 0, 900 * time.Millisecond, payloads["70KiB"], true},
+			} {
+				idx++
+				if cs.data == nil {
+					chk.Fatalf("C12: payload for %q missing", cs.name)
+				}
+				delayFirst, delayMid, body = cs.first, cs.mid, cs.data
+				h := uint64(1)
+				if !cs.assigned {
+					h = 999
+				}
+				resp, err := cli.Get(rig.ProxyURL("j1", h, "http", "t1:80", "/metrics", nil))
+				var got []byte
+				code := 0
+				if err == nil {
+					code = resp.StatusCode
+					got, err = io.ReadAll(resp.Body)
+					resp.Body.Close()
+				}
+				r.States++
+				r.Transitions++
+				r.Nontrivial++
+				if err != nil || code != 200 || !bytes.Equal(got, cs.data) {
+					r.Violate("C12:bytes:slower-than-global-timeout:through-Proxy.Run", "byte-for-byte", fmt.Sprintf("global scrape_timeout 300ms, job scrape_timeout 8s, target %s: Prometheus got status %d, %d of %d bytes, error %v", cs.name, code, len(got), len(cs.data), err), idx,
+						&c12Replay{Property: "C12", Clause: "byte-for-byte", Case: c12Case{Payload: cs.name + " (through Proxy.Run, global scrape_timeout 300ms, job 8s)", Len: len(cs.data), Assigned: cs.assigned}})
 				}
 			}
 		}
